@@ -552,10 +552,6 @@ func errDiscipline(s Site) (ok bool, how string) {
 		}
 		return false
 	})
-	// falling off the end of a function whose named result is obj
-	if f.namedErrResult() == obj {
-		used = true
-	}
 	if used {
 		return true, "bound and returned"
 	}
